@@ -80,6 +80,27 @@ func (header *Header) Validate(ctx context.Context, opts ...ValidationOption) er
 		if err := schema.Validate(ctx); err != nil {
 			return fmt.Errorf("header schema is invalid: %w", err)
 		}
+		if header.Example != nil && header.Examples != nil {
+			return errors.New("header example and examples are mutually exclusive")
+		}
+
+		if vo := getValidationOptions(ctx); !vo.examplesValidationDisabled {
+			if example := header.Example; example != nil {
+				if err := validateExampleValue(ctx, example, schema.Value); err != nil {
+					return fmt.Errorf("invalid example: %w", err)
+				}
+			} else if examples := header.Examples; examples != nil {
+				for _, k := range componentNames(examples) {
+					v := examples[k]
+					if err := v.Validate(ctx); err != nil {
+						return fmt.Errorf("%s: %w", k, err)
+					}
+					if err := validateExampleValue(ctx, v.Value.Value, schema.Value); err != nil {
+						return fmt.Errorf("%s: %w", k, err)
+					}
+				}
+			}
+		}
 	}
 
 	if content := header.Content; content != nil {
@@ -92,7 +113,7 @@ func (header *Header) Validate(ctx context.Context, opts ...ValidationOption) er
 			return fmt.Errorf("header content is invalid: %w", err)
 		}
 	}
-	return nil
+	return validateExtensions(ctx, header.Extensions)
 }
 
 // UnmarshalJSON sets Headers to a copy of data.
